@@ -862,7 +862,7 @@ struct Digit {
             } else {
                 stream += DigitUtils::DigitChar::Zero;
 
-                if (format.Type == RealFormatType::Fixed) {
+                if ((format.Type == RealFormatType::Fixed) && (format.Precision != 0)) {
                     stream += DigitUtils::DigitChar::Dot;
                     insertZerosLarge(stream, format.Precision);
                 }
@@ -1132,7 +1132,12 @@ struct Digit {
         stream.StepBack(index - started_at);
 
         if QENTEM_CONST_EXPRESSION (Fixed_T) {
-            if ((dot_index == index) || ((stream.Length() - started_at) == SizeT{1}) ||
+            if (precision == 0) {
+                // Same as std::fixed: no decimal point when no fraction digit is asked for.
+                if ((stream.Length() > started_at) && (*(stream.Last()) == DigitUtils::DigitChar::Dot)) {
+                    stream.StepBack(SizeT{1});
+                }
+            } else if ((dot_index == index) || ((stream.Length() - started_at) == SizeT{1}) ||
                 (!fraction_only && power_increased)) {
                 stream += DigitUtils::DigitChar::Dot;
                 insertZerosLarge(stream, precision);
